@@ -1,7 +1,7 @@
 /- Lemmas for the cluster-list functions of C14 (strlen, reverse, substr). -/
 import CtyModel.Stdlib.NumberSpec
 namespace CtyModel
-namespace Stdlib
+namespace StdNum
 
 theorem countLoop_eq (cs : List String) (l : Nat) : countLoop cs l = l + cs.length := by
   induction cs generalizing l with
@@ -146,5 +146,5 @@ theorem joinItems_strings (xs : List String) : joinItems (xs.map Payload.s) = so
   | nil => rfl
   | cons x xs ih => simp [joinItems, ih]
 
-end Stdlib
+end StdNum
 end CtyModel
